@@ -1,23 +1,63 @@
+(* C08-F3 (fixed by a2ba426).  BOUNDED positive statement: for every tiling of [0,4) by
+   trees with integer end points (each with or without edges) and every window list with
+   breakpoints on the half-integer grid, the repaired span bookkeeping equals the
+   documented non-missing span.  (Proof by exhaustive evaluation of the 54 x 128 scope,
+   lifted with forallb_forall: a proof of the bounded statement only; the unbounded claim
+   is tied by the per-run correspondence.)  The pinned pre-fix code is refuted. *)
 From Coq Require Import List ZArith QArith Bool.
 From TskVerif Require Import C08.Model C08.PairSpan.
 Import ListNotations.
 Open Scope Q_scope.
 
-(* tree with edges on [0,2), nothing on [2,6); windows [0, 11/2, 6] *)
+Fixpoint sublists {A} (l : list A) : list (list A) :=
+  match l with [] => [[]] | x :: t => let r := sublists t in map (cons x) r ++ r end.
+Fixpoint bool_lists (n : nat) : list (list bool) :=
+  match n with O => [[]] | S m => flat_map (fun l => [true :: l; false :: l]) (bool_lists m) end.
+Fixpoint mk_trees (bps : list Q) (flags : list bool) : list ptree :=
+  match bps, flags with
+  | a :: ((b :: _) as t), f :: fs => mkpt a b f :: mk_trees t fs
+  | _, _ => []
+  end.
+
+Definition windows_scope : list (list Q) :=
+  map (fun mid => 0 :: mid ++ [4]) (sublists [1 # 2; 1; 3 # 2; 2; 5 # 2; 3; 7 # 2]).
+Definition tilings_scope : list (list ptree) :=
+  flat_map (fun mid => let bps := 0 :: mid ++ [4] in
+                       map (mk_trees bps) (bool_lists (length bps - 1)))
+           (sublists [1; 2; 3]).
+
+Lemma pcc_spans_scope_checked :
+  forallb (fun trees => forallb (fun ws => qlist_eqb (pcc_code_spans trees ws) (pcc_spec_spans trees ws))
+                                windows_scope) tilings_scope = true.
+Proof. vm_compute. reflexivity. Qed.
+
+Lemma pcc_spans_bounded trees ws :
+  In trees tilings_scope -> In ws windows_scope ->
+  qlist_eqb (pcc_code_spans trees ws) (pcc_spec_spans trees ws) = true.
+Proof.
+  intros Ht Hw. pose proof pcc_spans_scope_checked as H.
+  rewrite forallb_forall in H. specialize (H trees Ht).
+  rewrite forallb_forall in H. exact (H ws Hw).
+Qed.
+
+Example scope_sizes : length tilings_scope = 54%nat /\ length windows_scope = 128%nat.
+Proof. split; reflexivity. Qed.
+
+(* the former witness is inside the pattern (tree with edges, then none; window ending
+   inside the edgeless interval) *)
 Definition w_ptrees : list ptree := [mkpt 0 2 false; mkpt 2 6 true].
+Example pcc_span_former_witness :
+  qlist_eqb (pcc_code_spans w_ptrees [0; 11 # 2; 6]) [2; 0] = true /\
+  In [mkpt 0 2 false; mkpt 2 4 true] tilings_scope /\ In [0; 7 # 2; 4] windows_scope.
+Proof.
+  split; [vm_compute; reflexivity|]. split.
+  - unfold tilings_scope. vm_compute. tauto.
+  - unfold windows_scope. vm_compute. tauto.
+Qed.
 
-Lemma pcc_span_witness :
-  qlist_eqb (pcc_code_spans w_ptrees [0; 11 # 2; 6]) [1; 0] = true /\
-  qlist_eqb (pcc_spec_spans w_ptrees [0; 11 # 2; 6]) [2; 0] = true.
-Proof. split; vm_compute; reflexivity. Qed.
-
-Lemma pcc_span_violates_definition :
+(* historical: the pinned pre-fix bookkeeping *)
+Lemma pcc_span_pinned_violates_definition :
   exists trees ws,
     trees = w_ptrees /\
-    qlist_eqb (pcc_code_spans trees ws) (pcc_spec_spans trees ws) = false.
+    qlist_eqb (pcc_code_spans_pinned trees ws) (pcc_spec_spans trees ws) = false.
 Proof. exists w_ptrees, [0; 11 # 2; 6]. split; [reflexivity | vm_compute; reflexivity]. Qed.
-
-(* when no window ends inside an edgeless interval the bookkeeping is right *)
-Example pcc_span_agrees_on_tree_aligned_windows :
-  qlist_eqb (pcc_code_spans w_ptrees [0; 1; 2; 6]) (pcc_spec_spans w_ptrees [0; 1; 2; 6]) = true.
-Proof. vm_compute. reflexivity. Qed.
